@@ -181,7 +181,8 @@ class C15(Prop):
     lean_modules = ["Pfb.C15.Props"]
     theorems = ["Pfb.C15." + t for t in [
         "C15_string_exact", "C15_string_noeval", "C15_after_dashdash", "C15_auto",
-        "C15_bind_agrees", "C15_binding_partial", "C15_binding", "C15_accepts_only_bindable", "C15_last_wins",
+        "C15_bind_agrees", "C15_binding_partial", "C15_binding", "C15_accepts_only_bindable", "C15_delivered_binds",
+        "C15_last_wins",
         "C15_rejects_ambiguous", "C15_rejects_unknown", "C15_rejects_call",
         "C15_D16_witness", "witness_call_binds", "witness_rejected", "witness_fixed",
         "C15_global_opts_suffix", "C15_safe_sets_string",
